@@ -220,6 +220,25 @@ fn gen_pattern(u: &mut Unstructured, kind: Kind, v: Inst, off: i32) -> arbitrary
             }
         }
     }
+    // blank and line-break text at the two edges of a pattern (the places where input is trimmed)
+    if u.coin(1, 8)? {
+        const EDGE: &[&str] = &["\n", "\r\n", "\r", " ", "\t", "  ", "\u{a0}", "\u{3000}", "\u{2028}", "\u{85}", " \n", "\u{b}", "\u{c}"];
+        let e = (*u.choose(EDGE)?).to_string();
+        let quoted = u.coin(1, 3)?;
+        let mk = |nb: Option<&Tok>| match nb {
+            Some(Tok::Field { .. }) | Some(Tok::Lit(_)) | None if quoted => Tok::Quoted(e.clone()),
+            _ => Tok::Lit(e.clone()),
+        };
+        let k = u.below(3)?;
+        if k != 1 {
+            let t = mk(toks.first());
+            toks.insert(0, t);
+        }
+        if k != 0 {
+            let t = mk(toks.last());
+            toks.push(t);
+        }
+    }
     Ok(toks)
 }
 
